@@ -7,12 +7,16 @@ import pipe
 
 ID = "C03"
 MODULE = "C03"
-IMPORTS = "Bytes RustInt Range CacheControl Cache CacheProofs Fixture CacheX CacheXProofs CacheXWitness CacheKey CacheKeyProofs"
+IMPORTS = "Bytes RustInt Range CacheControl Cache CacheProofs Fixture CacheX CacheXProofs CacheXWitness CacheKey CacheKeyProofs RuleSet CacheRules CacheRulesProofs CacheReachProofs CacheFixtureProofs"
 PROFILES = ("dev",)
-MAX_NOT_EXECUTED = 0
+MAX_NOT_EXECUTED = 4      # timed histories that could not be run within their slack after 3 x 3 attempts (set per tier in generate); everything else always runs
 _PINS = json.load(open(os.path.join(os.path.dirname(os.path.abspath(__file__)), "pins", "C03.json")))
 THEOREMS = [(n, _PINS[n]) for n in ("cache_transparent", "cache_hit_same_class", "cache_transparent_from_empty", "key_injective",
                                     "cache_transparent_uri", "cache_hit_same_uri", "query_start_needed",
+                                    "key_is_raw_path", "decoded_key_collides_refuted",
+                                    "vary_rules_most_specific", "vary_exact_rule_wins", "vary_longest_pattern_wins",
+                                    "length_first_shadows_exact_refuted",
+                                    "cache_transparent_reachable", "fixture_honours_contract", "fixture_cache_transparent",
                                     "override_poisons_refuted", "stream_vary_refuted", "qm_variant_refuted")]
 RULE = ("histories of requests/clears/waits against kvarn::handle_cache in process (harness/src/c04x.rs): (a) host with response cache vs. the Coq cache "
         "model Model/CacheX.v (component pipex.run; correspondence: status, vary / x-h / last-modified presence, decoded body, identity body, stream, "
@@ -30,11 +34,28 @@ RULE = ("histories of requests/clears/waits against kvarn::handle_cache in proce
         "/x/y?z=1 vs /x/yz=1, /a?/b vs /a/b, /a?bc vs /ab?c, /?a vs /a, /q?x=1 vs /qx=1, /ab? vs /a?b —, empty vs absent query (/a? vs /a) and an "
         "encoded '?' (/a?b vs /a%3Fb), in both orders, against the assignments of {None, QueryMatters, Full} to the handlers of the two paths, and "
         "random histories (requests, clears) over these URIs. "
+        "Family 'spell': %-escaped spellings of one path (/page, /p%61ge, /%70age; /data.json, /data%2Ejson, /data%2ejson; /a/b, /a%2Fb; /~u, /%7Eu, "
+        "/%7eu ...), which kvarn routes as DIFFERENT requests: a handler bound to the plain path only (the others are 404), handlers bound to "
+        "every spelling that echo the raw path, handlers with their own status/body per spelling, files whose content type is guessed from the "
+        "raw extension (real-vs-real only); directed orders (plain first, odd first, with query, encoded '?', two odd spellings) and random "
+        "histories with clears. Family 'rules': vary rule sets in which an exact rule stands next to patterns '<prefix>*' covering the same path "
+        "(/lang + /lang*; /api + /api* + /a*; /lang* + /lang + /*; ...) added in random order, every pattern varying on ANOTHER header, pages whose "
+        "handlers echo the tuple of the rule that applies to them, requests with different values of each header. Family 'expand': default "
+        "extensions, a vary rule on the page a short spelling expands to ('/', 'dir/', 'name.'), the item entering the cache through the short or "
+        "the long spelling, then other header values, clears of either spelling. Family 'ovrules': an override Prime on a host whose page and "
+        "internal route carry vary rules on different headers. Every real-vs-real scenario is also given to the model component pipex.wf "
+        "(wf_fixture: does theorem fixture_cache_transparent apply to this configuration?) — counted per family in the evidence; a scenario of "
+        "the families rules / expand / ovrules / spell that was built for the theorem's domain and is rejected fails the run as a generator error. "
         "distinct_nontrivial = distinct (history, model outcome) pairs containing at least one cache hit")
 ASSUMPTIONS = [
     "handlers honour their cache contract (theorem hypotheses: response is a function of method class, path of the URI that selects the handler "
-    "(the internal route when a Prime overrode the URI), (query if QueryMatters), vary tuple; error responses are not cacheable); fixture handlers "
-    "satisfy it by construction. The earlier extra hypothesis 'query-matters-ness is uniform per path' is gone: it was needed only because of the "
+    "(the internal route when a Prime overrode the URI), (query if QueryMatters), vary tuple; error responses are not cacheable). For the fixture "
+    "this is now a THEOREM (fixture_honours_contract / fixture_cache_transparent) for every configuration that passes wf_fixture (no counting "
+    "handler, no extended switch/stream handler, path-echo handlers QueryMatters and not an internal route, tuple-echo handlers echoing the "
+    "rules of their path); the extended handlers of the families random / negotiation / timed (selection by a raw header value: a function of "
+    "the transformed tuple only on the generated lower-case values) and path-echo handlers declared Full (histories without queries) satisfy it "
+    "by construction only. cache_transparent_reachable asks the contract only of the (request, override URI) pairs the Primes produce. "
+    "The earlier extra hypothesis 'query-matters-ness is uniform per path' is gone: it was needed only because of the "
     "defect witnessed by qm_variant_refuted, now repaired",
     "'query' in the contract is the NON-EMPTY query (Model/CacheKey.v eff_query): comprash::PathQuery stores path and query without the '?', so "
     "'/a?' and '/a' are one key by design (PathQuery::query's documentation and kvarn's own tests path_query_empty_query_1/4); a QueryMatters "
@@ -44,11 +65,17 @@ ASSUMPTIONS = [
     "sequential histories (one request at a time); the race between expiry and handle_vary_missing's second lookup is not modelled (C05)",
     "content negotiation is abstracted in the model (C06): bodies are compared after decoding content-encoding with standard decoders; the "
     "real-vs-real oracle compares the content-encoding / content-type headers and the 406 answers directly",
+    "the key is made from the RAW path (key_is_raw_path); sanitize_request's percent-decoding is not in Model/CacheX.v (C01's subject, Model/PathSan.v): "
+    "the generated %-escapes are ones whose decoded path passes the './' / '//' tests exactly when the raw path does",
+    "vary rule sets are read through C14's model of extensions::RuleSet (Model/RuleSet.v: add_mut in the order of the configuration, insertion "
+    "sort standing for sort_unstable_by; C14's most_specific_rule covers every permutation the sort may return)",
     "timed histories: a scenario in which a request started or ended more than 450 ms late is run again and then reported as not executed",
 ]
 TRUSTED = ["modelled (Model/CacheX.v): src/lib.rs handle_cache + handle_cache_helpers (get_response's key, get_cache, maybe_cache, handle_vary_missing), "
            "src/comprash.rs UriKey/PathQuery (From<&Uri>, derived PartialEq/Eq/Hash = Model/Cache.v path_query/key_eqb)/MokaCache::{get_cache_item,insert,insert_cache_item}/ServerCachePreference::cache, src/host.rs "
-           "clear_page/status filter, extensions.rs uri_redirect prime, the default CORS denial route; handlers/vary rules/override Prime are the "
+           "clear_page/status filter, extensions.rs uri_redirect prime, the default CORS denial route, Vary::rules_from_path = extensions::RuleSet::{add_mut,get} "
+           "(Model/RuleSet.v through CacheX.v rules_for_x: exact rule, else longest pattern) for the path of the URI the response is cached under; "
+           "handlers/vary rules/override Prime are the "
            "fixture menu (harness/src/c00pipe.rs + c04x.rs = Model/Fixture.v + CacheX.v)"]
 LEVEL_TEXT = ("Coq theorem cache_transparent over the full cache model (streams, body sizes, the host's status filter, override URIs of Prime extensions, "
               "vary variants with admission): for every history of requests, clears and waits, under the handler contract, every reply of the caching "
@@ -58,7 +85,19 @@ LEVEL_TEXT = ("Coq theorem cache_transparent over the full cache model (streams,
               "PartialEq/Hash of UriKey and PathQuery — holds of the PathQuery keys of two URIs exactly when path and non-empty query are equal, of "
               "the Path keys exactly when the paths are equal, never across the two kinds: '/a'+'b' is not '/ab'), with which cache_transparent_uri "
               "and cache_hit_same_uri restate the two theorems with the handler contract and the conclusion in terms of the URI's path and query "
-              "instead of the key; query_start_needed (witness: compared on the concatenated string alone, /a?b and /ab are one key). Three defects of the code before its repair are "
+              "instead of the key; query_start_needed (witness: compared on the concatenated string alone, /a?b and /ab are one key); key_is_raw_path (whichever "
+              "of its two keys an entry is stored under for one URI and looked up with for another, equal keys mean equal RAW paths: percent-spellings of "
+              "one decoded path never share an entry) with decoded_key_collides_refuted (keys made from the decoded path merge /page and /p%61ge although "
+              "the fixture's routing answers 200 and 404); vary_rules_most_specific / vary_exact_rule_wins / vary_longest_pattern_wins (the rules the "
+              "model applies to a cached page are those of C14's independent resolver: an exact rule beats every covering pattern whatever the lengths, "
+              "else the longest pattern) with length_first_shadows_exact_refuted (sorted by length first, /lang* shadows /lang and the page's x-w "
+              "variants get one tuple); cache_transparent_reachable (the same simulation with the handler contract asked only of the (request, override "
+              "URI) pairs the Primes produce — what a path-echoing handler can meet); fixture_honours_contract + fixture_cache_transparent: for EVERY "
+              "configuration of the fixture menu accepted by wf_fixture (static / method-class / QueryMatters path-echo / tuple-echo handlers with any "
+              "status, headers, preference; exact + pattern vary rules; status filter; default extensions with the '/', 'dir/', 'name.' expansion and "
+              "the CORS denial route; override Prime) the contract HOLDS, hence for all histories the model of the caching host (pipex.run) and the "
+              "model of the cache-less host (pipex.run_nocache, the oracle) answer alike — the hypothesis of cache_transparent is discharged for the "
+              "very model the code is compared with; not for configurations with extended (switch / stream) handlers. Three defects of the code before its repair are "
               "proved as witnesses on the faithful old model (override_poisons_refuted: an internal route's answer stored under the page's key; "
               "qm_variant_refuted: a QueryMatters variant joined a path-keyed entry and was served for every query; stream_vary_refuted). Tied to the repo worktree by a differential run of the real kvarn::handle_cache against the extracted model on "
               "generated histories, for hosts with and without the response cache, and by the real-vs-real comparison of the two hosts.")
@@ -212,7 +251,194 @@ def split_random(rng, n):
     return cases
 
 
-def mk_cases(rng, hs, ops, default_ext, kind, xhs=(), vary=(), pair=True, run=True, nocache_run=True, **cfgkw):
+# ---- family 'spell' (seeded/C03-6): spellings of one path that differ only in %-escapes.  kvarn routes on the RAW path (prepare_single keys,
+# the content type from the extension), so the spellings are different requests; the cache key must keep them apart.
+SPELLINGS = [(b"/page", [b"/p%61ge", b"/%70age"]), (b"/data.json", [b"/data%2Ejson", b"/data%2ejson"]), (b"/a/b", [b"/a%2Fb", b"/a/%62"]),
+             (b"/~u", [b"/%7Eu", b"/%7eu"]), (b"/a", [b"/%61"]), (b"/q", [b"/%71"])]
+
+
+def spell_handlers(rng, plain, odds, mode, sp):
+    """mode 0: a handler bound to the plain path only (the other spellings are 404); 1: handlers bound to every spelling that echo the raw path
+    (what a prepare_fn which names the path does); 2: handlers with their own status / body per spelling"""
+    mk = lambda p, i, **kw: pipe.H(p, spref=sp, headers=[(b"x-h", b"p%d" % i)], cpref=rng.choice([0, 3]), **kw)
+    if mode == 0:
+        return [mk(plain, 0, kind=1 if sp == 1 else rng.choice([0, 4]), body=b"generated:")]
+    if mode == 1:
+        return [mk(p, 0, kind=1, body=b"for:") for i, p in enumerate([plain] + odds)]
+    return [mk(p, i, kind=1 if sp == 1 else 0, body=b"own%d:" % i, status=rng.choice([200, 200, 404, 301])) for i, p in enumerate([plain] + odds)]
+
+
+def spell_cases(rng, tier):
+    cases = []
+    for plain, odds in SPELLINGS:
+        for mode in (0, 1, 2):
+            for sp in ((1, 2) if tier != "quick" else (rng.choice([1, 2]),)):
+                hs = spell_handlers(rng, plain, odds, mode, sp)
+                # a Full handler must not see two queries (kind 1 echoes the query): queries only under QueryMatters
+                q = b"?a=1" if sp == 1 else b""
+                o = odds[0]
+                directed = [[plain, plain, o, plain], [o, plain, o], [plain + q, o + q, plain + b"%3Fa=1", plain]]
+                if len(odds) > 1:
+                    # two odd spellings of one path (hex digits in either case, another escaped byte), with and without the query
+                    directed.append([odds[1] + q, o + q, plain + q, odds[1] + q, o])
+                if tier == "quick":
+                    directed = [directed[0], rng.choice(directed[1:3])] + directed[3:]
+                for h in directed:
+                    ops = [pipe.req(t, method=b"HEAD" if (j == 1 and rng.random() < 0.3) else b"GET") for j, t in enumerate(h)]
+                    cases += mk_cases(rng, hs, ops, rng.random() < 0.5, "spell", nocache_run=(tier != "quick"), expect_wf=(mode != 1 or sp == 1),
+                                      echo=b"for:" if mode == 1 else None)
+    # random histories over the spellings of two paths
+    for i in range(30 if tier == "quick" else 600):
+        (p1, o1), (p2, o2) = rng.sample(SPELLINGS, 2)
+        sp = rng.choice([1, 2, 2, 0])
+        m1, m2 = rng.choice([0, 1, 2]), rng.choice([0, 1, 2])
+        hs = spell_handlers(rng, p1, o1, m1, sp) + spell_handlers(rng, p2, o2, m2, sp)
+        uris = [p1] + o1 + [p2] + o2
+        qs = [b"", b"?a=1", b"?a=2"] if sp == 1 else [b""]
+        ops = []
+        for j in range(rng.randrange(3, 10)):
+            u = rng.choice(uris[:len(o1) + 1]) if rng.random() < 0.7 else rng.choice(uris)
+            r = rng.random()
+            if r < 0.08:
+                ops.append(pipe.clear_page(u))
+            else:
+                ops.append(pipe.req(u + rng.choice(qs), method=rng.choice([b"GET", b"GET", b"GET", b"HEAD", b"POST"]), addr=rng.randrange(1, 4)))
+        cases += mk_cases(rng, hs, ops, rng.random() < 0.4, "spell/random", pair=(i % 2 == 0), nocache_run=(i % 3 == 0),
+                          expect_wf=(sp == 1 or 1 not in (m1, m2)))
+    # files: the content type is guessed from the extension of the raw path, the file is read from the decoded one (real-vs-real only:
+    # the file system is not in Model/CacheX.v)
+    files = [xl(xb(b"public/data.json"), xb(b"{\"k\": 1}")), xl(xb(b"public/page.html"), xb(b"<!DOCTYPE html><p>page</p>")), xl(xb(b"public/t.txt"), xb(b"text"))]
+    for h in ([b"/data.json", b"/data%2Ejson", b"/data.json"], [b"/data%2Ejson", b"/data.json", b"/data%2ejson"], [b"/page.html", b"/p%61ge.html", b"/page%2Ehtml", b"/page.html"],
+              [b"/t.txt", b"/t%2Etxt", b"/%74.txt", b"/t.txt"]):
+        cases += mk_cases(rng, [], [pipe.req(t) for t in h], False, "spell/files", run=False, files=files)
+    return cases
+
+
+# ---- family 'rules' (seeded/C03-7): vary rule sets in which an exact rule stands next to wildcard rules that cover the same path and vary
+# on OTHER headers.  extensions::RuleSet::get answers with the most specific rule (exact before wildcard, then the longer pattern: C14's
+# theorem most_specific_rule, Model/RuleSet.v); the handlers honour the rule that applies to their path.
+RULE_HDRS = [b"x-w", b"x-v", b"x-u"]
+
+
+def applicable(patterns, path):
+    """the pattern extensions::RuleSet::get must choose: the exact one, else the longest wildcard covering the path"""
+    if path in patterns:
+        return path
+    ws = [p for p in patterns if p.endswith(b"*") and path.startswith(p[:-1])]
+    return max(ws, key=len) if ws else None
+
+
+def rules_cases(rng, tier):
+    cases = []
+    layouts = [([b"/lang", b"/lang*"], [b"/lang", b"/langx"]), ([b"/api", b"/api*", b"/a*"], [b"/api", b"/api/x", b"/ab"]),
+               ([b"/lang*", b"/lang", b"/*"], [b"/lang", b"/other"]), ([b"/l/i.html", b"/l/*", b"/l*"], [b"/l/i.html", b"/l/j", b"/lx"]),
+               ([b"/lang", b"/lang*", b"/lan*", b"/langu*"], [b"/lang", b"/language", b"/land"])]
+    n = 0
+    for patterns, pages in layouts:
+        for rep in range(2 if tier == "quick" else 12):
+            order = list(patterns)
+            rng.shuffle(order)
+            tuples = {}
+            hdrs = RULE_HDRS[:]
+            rng.shuffle(hdrs)
+            for i, p in enumerate(order):
+                # every pattern varies on its own header (a wildcard sometimes on none)
+                tuples[p] = [] if (p.endswith(b"*") and rng.random() < 0.2) else [(hdrs[i % 3], rng.choice([0, 0, 1, 2]), b"d%d" % i)]
+            vary = [pipe.vary_rule(p, tuples[p]) for p in order]
+            hs = []
+            for pg in pages:
+                ap = applicable(patterns, pg)
+                hs.append(pipe.H(pg, kind=3, body=b"P" + pg, spref=rng.choice([1, 2, 2]), tuple_=tuples[ap] if ap else [], cpref=0))
+            vals = [b"a", b"zz", b"N", b"abc"]
+            if rep == 0:
+                # the exact page with two values of ITS header, then the values of the wildcards' headers
+                pg = pages[0]
+                own = tuples[applicable(patterns, pg)]
+                h = own[0][0] if own else b"x-w"
+                ops = [pipe.req(pg, headers=[(h, b"a")]), pipe.req(pg, headers=[(h, b"zz")]), pipe.req(pg, headers=[(h, b"a")]),
+                       pipe.req(pages[1], headers=[(x, b"N") for x in RULE_HDRS]), pipe.req(pg, headers=[(x, b"N") for x in RULE_HDRS])]
+            else:
+                ops = []
+                for j in range(rng.randrange(4, 10)):
+                    pg = rng.choice(pages[:1] * 3 + pages)
+                    if rng.random() < 0.06:
+                        ops.append(pipe.clear_page(pg))
+                        continue
+                    ops.append(pipe.req(pg, method=rng.choice([b"GET", b"GET", b"GET", b"HEAD", b"POST"]),
+                                        headers=[(x, rng.choice(vals)) for x in RULE_HDRS if rng.random() < 0.7]))
+            cases += mk_cases(rng, hs, ops, rng.random() < 0.3, "rules", vary=vary, pair=True, nocache_run=(tier != "quick" or n % 3 == 0), expect_wf=True)
+            n += 1
+    return cases
+
+
+# ---- family 'expand' (seeded/C03-8): default extensions on, a vary rule on the page a short spelling expands to ('/' -> '/index.html',
+# '/a/' -> '/a/index.html', '/a.' -> '/a.html'), the item entering the cache through the short or the long spelling, then other header values.
+EXPANSIONS = [(b"/", b"/index.html"), (b"/a/", b"/a/index.html"), (b"/a.", b"/a.html"), (b"/index.", b"/index.html")]
+
+
+def expand_cases(rng, tier):
+    cases = []
+    for short, long_ in EXPANSIONS:
+        for rep in range(2 if tier == "quick" else 10):
+            tup = [(b"x-w", rng.choice([0, 0, 1, 2]), b"dw")] + ([(b"x-v", 0, b"dv")] if rng.random() < 0.3 else [])
+            sp = rng.choice([1, 2, 2])
+            hs = [pipe.H(long_, kind=3, body=b"L" + long_, spref=sp, tuple_=tup, cpref=0),
+                  pipe.H(b"/plain", kind=0, body=b"plain", spref=2, cpref=0)]
+            vary = [pipe.vary_rule(long_, tup)]
+            if rng.random() < 0.3:
+                vary.append(pipe.vary_rule(short, [(b"x-u", 0, b"du")]))      # a rule on the short spelling: never applies (the URI is rewritten first)
+            H = lambda v: [(b"x-w", v)]
+            if rep == 0:
+                ops = [pipe.req(short, headers=H(b"a")), pipe.req(short, headers=H(b"zz")), pipe.req(long_, headers=H(b"N")),
+                       pipe.req(short, headers=H(b"a")), pipe.req(long_, headers=H(b"zz"))]
+            else:
+                ops = []
+                for j in range(rng.randrange(3, 9)):
+                    u = rng.choice([short, short, long_, b"/plain"])
+                    r = rng.random()
+                    if r < 0.08:
+                        ops.append(pipe.clear_page(rng.choice([short, long_])))
+                    else:
+                        ops.append(pipe.req(u + (rng.choice([b"", b"?x=1"]) if sp == 1 else b""), method=rng.choice([b"GET", b"GET", b"GET", b"HEAD", b"POST"]),
+                                            headers=[(b"x-w", rng.choice([b"a", b"zz", b"N", b"abc"]))] if rng.random() < 0.85 else []))
+            cases += mk_cases(rng, hs, ops, True, "expand", vary=vary, pair=True, nocache_run=(tier != "quick"), expect_wf=True)
+    return cases
+
+
+def ovrules_cases(rng, tier):
+    """an override Prime (header x-int -> internal route /./int) on a host whose page AND internal route have vary rules on different
+    headers: the item of the internal route is keyed, and its variants are told apart, by the internal URI and ITS rules"""
+    cases = []
+    for rep in range(3 if tier == "quick" else 25):
+        tp = [(b"x-w", rng.choice([0, 1, 2]), b"dw")]
+        ti = [(b"x-v", rng.choice([0, 0, 1]), b"dv")] if rng.random() < 0.8 else []
+        hs = [pipe.H(b"/p", kind=3, body=b"page", spref=rng.choice([1, 2]), tuple_=tp, cpref=0),
+              pipe.H(b"/./int", kind=3, body=b"internal", spref=rng.choice([1, 2, 2]), tuple_=ti, cpref=0)]
+        vary = [pipe.vary_rule(b"/p", tp)] + ([pipe.vary_rule(b"/./int", ti)] if ti else [])
+        if rng.random() < 0.4:
+            vary.append(pipe.vary_rule(b"/*", [(b"x-u", 0, b"du")]))         # covered by the exact rules; applies to /./int when it has none
+            if not ti:
+                hs[1] = pipe.H(b"/./int", kind=3, body=b"internal", spref=2, tuple_=[(b"x-u", 0, b"du")], cpref=0)
+        X = (b"x-int", b"1")
+        if rep == 0:
+            ops = [pipe.req(b"/p", headers=[(b"x-w", b"a")]), pipe.req(b"/p", headers=[(b"x-w", b"zz")]),
+                   pipe.req(b"/p", headers=[X, (b"x-v", b"a"), (b"x-w", b"a")]), pipe.req(b"/p", headers=[X, (b"x-v", b"N"), (b"x-w", b"a")]),
+                   pipe.req(b"/p", headers=[X, (b"x-v", b"a"), (b"x-w", b"zz")]), pipe.req(b"/p", headers=[(b"x-w", b"a"), (b"x-v", b"N")])]
+        else:
+            ops = []
+            for j in range(rng.randrange(4, 10)):
+                if rng.random() < 0.06:
+                    ops.append(pipe.clear_page(rng.choice([b"/p", b"/./int"])))
+                    continue
+                hd = [(n, rng.choice([b"a", b"zz", b"N", b"abc"])) for n in (b"x-w", b"x-v", b"x-u") if rng.random() < 0.7]
+                ops.append(pipe.req(b"/p", method=rng.choice([b"GET", b"GET", b"GET", b"HEAD", b"POST"]), headers=hd + ([X] if rng.random() < 0.5 else [])))
+        cases += mk_cases(rng, hs, ops, False, "ovrules", vary=vary, pair=True, nocache_run=(tier != "quick"), expect_wf=True, ovprime=[xb(b"x-int"), xb(b"/./int")])
+    return cases
+
+
+def mk_cases(rng, hs, ops, default_ext, kind, xhs=(), vary=(), pair=True, run=True, nocache_run=True, expect_wf=False, echo=None, **cfgkw):
+    """expect_wf: the configuration is built to lie inside the domain of theorem fixture_cache_transparent (Model/CacheRules.v wf_fixture,
+    evaluated by the model side as component pipex.wf); a scenario that does not is a generator error, reported loudly"""
     out = []
     kw = dict(default_ext=default_ext, handlers=hs, report=[xb(r) for r in REPORT], disable_ims=False, **cfgkw)
     if xhs:
@@ -223,9 +449,9 @@ def mk_cases(rng, hs, ops, default_ext, kind, xhs=(), vary=(), pair=True, run=Tr
         for cache in ((True, False) if nocache_run else (True,)):
             c = pipe.cfg(cache=cache, **kw)
             out.append(Case("pipex.run", pipe.scenario(c, ops), "pipex.run_nocache" if cache else None,
-                            {"kind": kind + ("/cache" if cache else "/nocache")}))
+                            {"kind": kind + ("/cache" if cache else "/nocache"), **({"echo": echo} if echo else {})}))
     if pair:
-        out.append(Case("pipex.pair", pipe.scenario(pipe.cfg(cache=True, **kw), ops), None, {"kind": kind + "/pair"}))
+        out.append(Case("pipex.pair", pipe.scenario(pipe.cfg(cache=True, **kw), ops), "pipex.wf", {"kind": kind + "/pair", "expect_wf": expect_wf}))
     return out
 
 
@@ -271,6 +497,11 @@ def generate(rng, tier):
     # URIs whose PathQuery strings coincide but split differently (seeded/C03-3), both orders, handlers QueryMatters / Full / None
     cases += split_directed(rng, tier)
     cases += split_random(rng, 50 if tier == "quick" else 1500)
+    # %-escaped spellings of a path (seeded/C03-6), exact next to wildcard vary rules (C03-7), vary rules on expanded paths (C03-8)
+    cases += spell_cases(rng, tier)
+    cases += rules_cases(rng, tier)
+    cases += expand_cases(rng, tier)
+    cases += ovrules_cases(rng, tier)
     nhist = 230 if tier == "quick" else 5000
     for i in range(nhist):
         prefs = [rng.choice([0, 1, 2]) for _ in range(3)]
@@ -300,6 +531,10 @@ def generate(rng, tier):
         vh, xhs, rules = vary_pages(rng, True)
         ops = history(rng, rng.randrange(8, 13), timed=True)
         cases += mk_cases(rng, hs + vh, ops, False, "timed", xhs=xhs, vary=rules, pair=False, slack=SLACK)
+    # harness trouble is not a verdict: a timed history that cannot be run within its slack (machine under load) is retried (3 attempts in the
+    # harness, 3 runs by the driver), then counted and named as not executed; more than a quarter of them fails the run as a harness error
+    global MAX_NOT_EXECUTED
+    MAX_NOT_EXECUTED = max(4, sum(1 for c in cases if "timed" in c.meta.get("kind", "")) // 4)
     return cases
 
 
@@ -311,8 +546,16 @@ def _hdrs(h):
     return [p for p in h[1] if p[1][0] != ("B", b"last-modified")]
 
 
+_WF = {}
+
+
 def spec_ok(c, impl, spec):
-    """reply of the caching host == reply of the cache-less model on status, reported headers, decoded body, identity body, stream."""
+    """reply of the caching host == reply of the cache-less model on status, reported headers, decoded body, identity body, stream.
+    For the real-vs-real cases the 'spec' is the model's verdict wf_fixture on the configuration (does theorem fixture_cache_transparent
+    apply?): recorded for the coverage figures and for harness_trouble; the real-vs-real comparison itself is extra_oracle's."""
+    if c.comp == "pipex.pair":
+        _WF[c.id] = spec
+        return True
     try:
         a, b = _replies(impl), _replies(spec)
     except Exception:
@@ -327,7 +570,29 @@ def spec_ok(c, impl, spec):
     return True
 
 
+def echo_oracle(c, impl):
+    """the property read on the implementation's output alone, for hosts all of whose handlers echo the raw path (and non-empty query) of the
+    request they were invoked for: every 200 answer to a GET names the path and query of ITS OWN request — an entry stored for one spelling
+    or query is never served for another"""
+    try:
+        ops, replies = c.x[1][1][1], _replies(impl)
+    except Exception:
+        return None
+    for i, (op, rp) in enumerate(zip(ops, replies)):
+        f = op[1]
+        if f[0] != ("N", 0) or f[2] != ("B", b"GET") or rp[0] != "L" or len(rp[1]) != 7 or rp[1][0] != ("N", 200):
+            continue
+        t = f[3][1]
+        path, _, q = t.partition(b"?")
+        want = c.meta["echo"] + path + (b"?" + q if q else b"")
+        if rp[1][2] != ("B", want):
+            return "op %d: GET %r answered 200 with body %r, which is not the echo of its own path and query (%r)" % (i, t, rp[1][2][1][:80], want)
+    return None
+
+
 def extra_oracle(c, impl):
+    if c.comp == "pipex.run" and c.meta.get("echo"):
+        return echo_oracle(c, impl)
     if c.comp != "pipex.pair":
         return None
     if impl != "(L)":
@@ -346,6 +611,10 @@ def out_of_domain(c, impl):
 
 
 def harness_trouble(cases, impl, model):
+    off = [c for c in cases if c.comp == "pipex.pair" and c.meta.get("expect_wf") and _WF.get(c.id) not in (None, "(N 1)")]
+    if off:
+        return "generator error: %d scenario(s) built for the domain of fixture_cache_transparent are rejected by wf_fixture (%s): %s" % (
+            len(off), _WF.get(off[0].id), ", ".join("%s[%s]" % (c.id, c.meta.get("kind")) for c in off[:8]))
     timed = [c for c in cases if "timed" in c.meta.get("kind", "")]
     bad = [c for c in timed if (impl.get(c.id) or "").startswith("(L (N 93)")]
     if timed and len(bad) * 3 > len(timed):
@@ -356,7 +625,14 @@ def harness_trouble(cases, impl, model):
 
 def extra_coverage(cases, impl, model, spec):
     bad = [c for c in cases if (impl.get(c.id) or "").startswith("(L (N 93)")]
-    return {"timing_not_executed": len(bad), "timing_not_executed_ids": [{"id": c.id, "kind": c.meta.get("kind")} for c in bad][:30]}
+    pairs = [c for c in cases if c.comp == "pipex.pair"]
+    wf = {}
+    for c in pairs:
+        k = c.meta.get("kind", "-").split("/")[0]
+        a, b = wf.get(k, (0, 0))
+        wf[k] = (a + (spec.get(c.id) == "(N 1)"), b + 1)
+    return {"timing_not_executed": len(bad), "timing_not_executed_ids": [{"id": c.id, "kind": c.meta.get("kind")} for c in bad][:30],
+            "real_vs_real_scenarios_inside_fixture_cache_transparent": {k: "%d of %d" % v for k, v in sorted(wf.items())}}
 
 
 def signature(c, m):
